@@ -37,7 +37,7 @@ CHECKS = {
  "C08": ("exploration",
   "runtime monitoring under hostile inputs: child-process crash/hang/allocation monitor around the real decoder, and event-log oracles over a real Receiver on an instrumented bucket",
   "Tens of thousands of hostile blobs per run (random, truncated, bit-flipped, structurally valid trees with hostile length/tag fields at every nesting level, corrupt gzip, large expansions) are written to disk and fed to the real LoadData + full DBI iteration in child processes: panic, process death, non-termination (logical bound on Next() calls + watchdog) or disproportionate allocation is a violation. A real Receiver.Run with downloaders reads buckets where such blobs are the newest/middle/only blob of instances; delivery, ignore-after-first-download and token-gauge oracles run over the recorded bucket and delivery logs.",
-  "Trusted: the independent strict decoder used to classify which blobs are certainly decodable; memory bound 64x(compressed+decompressed)+32MiB; bounded progress = 300 List cycles.", "DESIGN.md section 6 C08"),
+  "Trusted: the independent strict decoder used to classify which blobs are certainly decodable; memory bound 64x(compressed+decompressed)+32MiB; bounded progress = 1500 List cycles.", "DESIGN.md section 6 C08"),
  "C12": ("exploration",
   "runtime monitoring of the real cleaner with a virtual clock: every Delete event in the instrumented bucket's log is judged by an independent safety policy; syncer-level commit-order monitor on a real Sync loop with failing uploads",
   "Thousands of generated listing histories (clock increments on and around both interval boundaries incl. 0, commit notifications before/at/after snapshot times, foreign and malformed names, List/Delete faults) drive the real cleaner.Worker; each of its Delete calls must satisfy the policy clauses, bounded progress is asserted after fault-free runs. A real Sync loop with cleaning enabled is run against a stale foreign instance while the cleaner is invoked at every yield point and during failing/retried Stores; a receive-only Sync must not mutate the bucket.",
@@ -68,7 +68,7 @@ CHECKS = {
   "Database names over the documented safe alphabet only. Trusted: Go's time package for the reference ordering.", "DESIGN.md section 6 C15"),
  "C16": ("exploration",
   "runtime monitoring of a real Receiver (Run loop, downloaders, token limits) and of run-once Sync on an instrumented, fault-scripted bucket: offline oracles over the delivery log, bucket log and quiescent token gauges; porcupine linearizability check of recorded Acquire/Release histories against a counting semaphore",
-  "Generated bucket evolutions (1-12 instances, snapshots appearing, replaced while un-merged, cleaned between List and Load), List/Load fault scripts, corrupt blobs at every position, Load latencies, fast/slow/holding consumers, all limit pairs: bounded-progress delivery (300 List cycles after changes and faults stop), never more Loads in flight than configured, bounded number of snapshots held between download and hand-over, no token leak at quiescence. Run-once Sync must end by itself, only after every present decodable start-up instance was merged and after its own upload. Token histories with double and cross-goroutine releases are checked with porcupine.",
+  "Generated bucket evolutions (1-12 instances, snapshots appearing, replaced while un-merged, cleaned between List and Load), List/Load fault scripts, corrupt blobs at every position, Load latencies, fast/slow/holding consumers, all limit pairs: bounded-progress delivery (1500 List cycles after changes and faults stop), never more Loads in flight than configured, bounded number of snapshots held between download and hand-over, no token leak at quiescence. Run-once Sync must end by itself, only after every present decodable start-up instance was merged and after its own upload. Token histories with double and cross-goroutine releases are checked with porcupine.",
   "Transient gauge samples are observations only (decrement happens after the token is returned). Poll intervals 1 ms; progress measured in List cycles.", "DESIGN.md section 6 C16"),
  "C17": ("exploration",
   "Go race detector on repeated concurrent workloads with yield-point delay injection (reports de-duplicated by innermost repository frame pair), closed-system wedge detection for topics, cancellation at every yield point, per-process global-storage trials, concurrent token releases",
